@@ -80,13 +80,47 @@ def cross_extension_histories(seed, n):
     return out
 
 
+def near_duplicate_histories(seed, n):
+    """Files hashed as TEXT (no NUL among the first 8000 bytes; by `auto`, by option or by configuration) that are near-duplicates:
+    same length, same line structure, different only in bytes a text-normalising reader could fold together
+    (repo_harness.near_duplicate_pair: bytes that are not valid UTF-8 such as Latin-1 letters, control bytes, blanks, VT/FF/NEL,
+    ...).  On two paths of one extension committed by one command, by two, or as two successive versions of ONE path; every
+    algorithm; then both deleted and rechecked, and the old version restored from its Git commit by the restore probe.  The text
+    digest drops CR and LF and nothing else (Props/C02Text.lean), so these are two objects and each path gets its own bytes back."""
+    import repo_harness as rh
+    rng = random.Random(f'c01-near-duplicates-{seed}')
+    out = []
+    for i in range(n):
+        algo = (i + seed) % 4
+        how = ['auto', 'auto', 'option-text', 'config-text'][(i // 4) % 4]
+        cfg = {'algo': algo, 'method': rng.choice(['copy', 'copy', 'symlink', 'hardlink', 'reflink']), 'tob': 'text' if how == 'config-text' else 'auto'}
+        tob = 'text' if how == 'option-text' else None
+        A, B = rh.near_duplicate_pair(rng, tag=bytes(f'{i}/{seed} ', 'ascii') + (bytes(rng.choice(b'abcdefgh ') for _ in range(9000)) if rng.random() < 0.2 else b''))
+        e = rng.choice(['txt', 'csv', 'tex', ''])
+        nm = lambda x: x + ('.' + e if e else '')
+        p, q = nm('notes-a'), nm(rng.choice(['notes-b', 'd/notes-a']))
+        np_ = lambda: rng.random() < 0.5
+        shape = ['together', 'one-by-one', 'edit', 'edit-force'][i % 4]
+        if shape == 'together':
+            h, ps = [W(p, A), W(q, B), T([p, q], tob=tob, no_parallel=np_())], [p, q]
+        elif shape == 'one-by-one':
+            h, ps = [W(p, A), T([p], tob=tob, no_parallel=np_()), W(q, B), T([q], tob=tob, no_parallel=np_())], [p, q]
+        else:
+            h = [W(p, A), T([p], tob=tob, no_parallel=np_()), W(p, B), CI([p], tob=tob, force=shape == 'edit-force', no_parallel=np_())]
+            ps = [p]
+        h += [{'op': 'delete', 'path': x} for x in ps] + [RC(list(reversed(ps)), no_parallel=np_())]
+        out.append((f'near-duplicate-{shape}-{how}-algo{algo}-{i}', cfg, h))
+    return out
+
+
 def extra_corpus(chk):
     quick = chk.tier == 'quick'
-    return sibling_histories(chk.seed, 30 if quick else 300) + cross_extension_histories(chk.seed, 24 if quick else 240)
+    return sibling_histories(chk.seed, 30 if quick else 300) + cross_extension_histories(chk.seed, 24 if quick else 240) + \
+        near_duplicate_histories(chk.seed, 24 if quick else 240)
 
 
 def run(chk):
-    return rc.run_property(chk, 'C01', ORACLES, restore=RESTORE, nq=250, extra_corpus=extra_corpus(chk), extra_props=['XvcRepo.Props.C01Cmd'])
+    return rc.run_property(chk, 'C01', ORACLES, restore=RESTORE, nq=250, extra_corpus=extra_corpus(chk), extra_props=['XvcRepo.Props.C01Cmd', 'XvcRepo.Props.C02Text'])
 
 
 def replay(chk, data):
